@@ -57,7 +57,7 @@ class DateTimeProperty(PropertyProtocol):
         if isinstance(value, str):
             try:
                 isoparse(value)  # make sure it's a valid value
-            except ValueError as e:
+            except (ValueError, OverflowError) as e:
                 return PropertyError(f"Invalid datetime: {e}")
             return Value(python_code=f"isoparse({value!r})", raw_value=value)
         return PropertyError(f"Cannot convert {value} to a datetime")
